@@ -40,7 +40,7 @@ type Obs struct {
 type Expect struct {
 	Fail      bool   // a template error sits in a role that is part of the expansion
 	FailSite  string // which field / role kind (for the clause)
-	Unreached bool   // a template error sits in a role that is pruned (the statement does not settle the verdict)
+	Unreached bool   // a template error sits in a role that is pruned: not evaluated, the load succeeds with the pruned tree
 	Tree      []Obs
 }
 
